@@ -32,7 +32,7 @@ def main(tier):
                   control=lambda: L.control_iso(repo, cp, ir))
     err = chk.run("R-ERRCODES", L.error_codes, repo, cp, floor=250)
     chk.run("R-EXAMPLEFILE", L.examplefile, repo, floor=5)
-    chk.run("R-DOCEXAMPLES", L.docexamples, repo, cp, floor=10)
+    chk.run("R-DOCEXAMPLES", L.docexamples, repo, cp, floor=50)
     chk.run("R-LOADER", GR.loader, repo, floor=4)
     chk.run("R-CONFLICT", GR.conflict, repo, floor=2)
     # parser objects built in one process (module parser, then expression parser) must not share tables
